@@ -6,6 +6,7 @@ import (
 	"go/token"
 	"go/types"
 	"golang.org/x/tools/go/ssa"
+	"sort"
 	"strings"
 	"verifsa/internal/paths"
 
@@ -104,6 +105,7 @@ func runC02(c *core.Ctx) {
 		}
 	}
 	endianRule(c)
+	composeRule(c)
 	lenPrefixRule(c)
 }
 
@@ -518,6 +520,29 @@ func endianRule(c *core.Ctx) {
 				}
 				return true
 			})
+		}
+	}
+}
+
+// composeRule: every integer composed by hand from consecutive octets (uint32(b[0])<<24 | ...) is big-endian.
+func composeRule(c *core.Ctx) {
+	var fns []*ssa.Function
+	for fn := range ssaFunctions(c.Prog) {
+		if fn.Pkg != nil && fn.Synthetic == "" && len(fn.Blocks) > 0 {
+			fns = append(fns, fn)
+		}
+	}
+	sort.Slice(fns, func(i, j int) bool { return fns[i].Pos() < fns[j].Pos() })
+	for _, fn := range fns {
+		for _, bo := range composeRoots(fn) {
+			info, _ := beCompose(bo)
+			name := fn.RelString(fn.Pkg.Pkg)
+			key := fmt.Sprintf("%s.%s#compose%d@%d", load.Rel(fn.Pkg.Pkg.Path()), name, 8*info.width, ordinal(c, fn.Pkg.Pkg.Path()+name+"compose"))
+			if info.big {
+				c.OK("C02-ENDIAN", key, c.Prog.Pos(bo.Pos()), "octets composed most significant first")
+			} else {
+				c.Fail("C02-ENDIAN", key, c.Prog.Pos(bo.Pos()), fmt.Sprintf("a %d-bit integer is composed from consecutive octets in an order that is not big-endian", 8*info.width))
+			}
 		}
 	}
 }
